@@ -385,7 +385,7 @@ def run(P, tier="quick"):
                     R.violated(Finding("R28", PROPS, FILE, f.name, "setup-" + cname, "vnadata_init arguments are (%s)" % ", ".join(a), c.line))
                     continue
             elif a != wargs:
-                R.violated(Finding("R28", PROPS, FILE, f.name, "setup-" + cname, "%s arguments are (%s), expected (%s)" %
+                R.violated(Finding("R28", PROPS + ("C06",), FILE, f.name, "setup-" + cname, "%s arguments are (%s), expected (%s)" %
                                    (cname, ", ".join(a), ", ".join(wargs)), c.line))
                 continue
             # the failure of the call must be tested (== -1 -> return -1), except set_frequency_vector (cannot fail here)
